@@ -1,0 +1,5 @@
+//go:build !verif
+
+package syncutils
+
+func verifYield(string) {}
